@@ -51,6 +51,15 @@ func (e *Engine) resolveType(pkg *types.Package, name string) types.Type {
 	return nil
 }
 
+type EntryInfo struct {
+	Fn       *ssa.Function
+	Args     []Value
+	Names    []string
+	ResNames []string
+	Entry    *State
+	Con      *Contract
+}
+
 // verifyFunction generates all obligations of fn against its contract.
 func (e *Engine) verifyFunction(fn *ssa.Function, con *Contract) {
 	key := funcKey(fn)
@@ -129,6 +138,16 @@ func (e *Engine) verifyCase(fn *ssa.Function, con *Contract, ci int, sc *SpecCas
 	e.addObl(st, fmt.Sprintf("%s/cover.pre%s#0", key, fr.callPath), "cover", nil, TFalse, "COVER: precondition satisfiable", "")
 	old := st.clone()
 	fr.old = old
+	if ci == 0 {
+		names := make([]string, len(fn.Params))
+		for i, p := range fn.Params {
+			names[i] = p.Name()
+			if i < len(con.Params) && con.Params[i] != "" {
+				names[i] = con.Params[i]
+			}
+		}
+		e.entries[key] = &EntryInfo{Fn: fn, Args: args, Names: names, ResNames: con.Results, Entry: old, Con: con}
+	}
 	outs := e.runFunc(fr, st, args, bound)
 	for _, o := range outs {
 		e.pathCount++
